@@ -74,13 +74,18 @@ def write_coqproject():
 
 def make_targets(targets, timeout=1500, clean=False):
     """Full .vo build of the given targets (and what they depend on)."""
-    with flock('coqmake'):
+    # compiled files are shared by concurrently running checks: builders serialise on
+    # 'coqmake'; a from-scratch rebuild (thorough tier) additionally excludes the readers
+    # (model evaluation holds 'coqvo' shared) while it rewrites .vo files
+    with flock('coqmake'), flock('coqvo', shared=not clean):
         write_coqproject()
-        if clean:
-            sh('make -f Makefile.coq clean >/dev/null 2>&1; rm -f Makefile.coq Makefile.coq.conf .Makefile.coq.d', cwd=COQ)
         rc, out, dt = sh('coq_makefile -f _CoqProject -o Makefile.coq', cwd=COQ, timeout=120)
         if rc != 0:
             return rc, out, dt
+        if clean:
+            # rebuild the property's whole dependency chain from source (make -B),
+            # leaving other properties' compiled files alone
+            return sh('timeout %d make -B -f Makefile.coq -j16 %s' % (timeout, ' '.join(targets)), cwd=COQ, timeout=timeout + 30)
         # always re-run the property files so that Print Assumptions output is captured
         for t in targets:
             for ext in ('.vo', '.glob', '.vos', '.vok'):
@@ -154,7 +159,7 @@ def eval_terms(name, preamble, terms, shards=16):
         chunks[i % shards].append(t)
         idx[i % shards].append(i)
     out = [None] * n
-    with concurrent.futures.ThreadPoolExecutor(max_workers=shards) as ex:
+    with flock('coqvo', shared=True), concurrent.futures.ThreadPoolExecutor(max_workers=shards) as ex:
         for k, res, err in ex.map(_run_shard, [(k, wd, preamble, chunks[k]) for k in range(shards)]):
             if res is None:
                 return None, err
